@@ -462,7 +462,13 @@ Definition psm_of_keys_field (m : msgd) : option psmopt :=
   match find (fun f => str_eqb (f_name f) s_keys) (m_fields m) with
   | Some f => match f_card f, f_ty f with
               | CMap _, _ => None
-              | _, TMsg full => match find_msg full with Some km => m_psm km | None => None end
+              | _, TMsg full =>
+                  match find_msg full with
+                  | Some km =>
+                      (* a keys message that states its part makes the embedding message no part at all *)
+                      match m_psm km with Some (PsmOpt _ (Some _)) => None | other => other end
+                  | None => None
+                  end
               | _, _ => None
               end
   | None => None
@@ -809,7 +815,7 @@ Definition message_factory (st : sset) (s : fschema) (f : field) : outcome unit 
       (* anyFieldFactory.buildField panics on any other value type; the reader only yields FAny for these *)
       if str_eqb (value_full f) s_PbAny || str_eqb (value_full f) s_J5Any then Ok tt
       else Panic "anyFieldFactory.buildField: unsupported Any type"
-  | _ => Panic "newMessageFieldFactory: invalid schema for message field"
+  | _ => Err "newMessageFieldFactory: unsupported schema for message field"
   end.
 
 (* newFieldFactory *)
@@ -830,7 +836,7 @@ Definition leaf_factory (st : sset) (s : fschema) (f : field) : outcome unit :=
              else if str_eqb (value_full f) wkt then Ok tt else Err "ScalarField message is of another type"
       end
   | FScalar None _ => Err "exported scalar"
-  | _ => Panic "newFieldFactory: invalid schema for leaf field"
+  | _ => Err "newFieldFactory: unsupported schema for leaf field"
   end.
 
 (* buildProperty for a property whose value is set *)
